@@ -7,6 +7,7 @@ import (
 	"math/rand"
 	"os"
 	"path/filepath"
+	"runtime/debug"
 	"sort"
 	"strings"
 	"sync"
@@ -85,6 +86,7 @@ type specRun struct {
 	retwarns []interface{}
 	phases   []interface{}
 	nerr     int
+	circ     bool // a circular ancestry was reported
 	panicMsg string
 }
 
@@ -94,6 +96,24 @@ var sharedSV = map[bool]*validate.SpecValidator{}
 func runSpecOnce(docText []byte, cont bool, in *interner, reg strfmt.Registry) specRun {
 	return runSpec(docText, cont, in, reg, false)
 }
+
+// primerDoc is an accepted document unlike every generated one: a validator that has just validated it must not let
+// anything of it show in the next validation
+const primerDoc = `{"swagger":"2.0","info":{"title":"primer","version":"1"},"paths":{"/primer/{pid}":{"get":{"operationId":"primerGet","parameters":[{"name":"pid","in":"path","required":true,"type":"string"},{"name":"n","in":"query","type":"integer","default":3}],"responses":{"200":{"description":"ok","schema":{"$ref":"#/definitions/Primer"},"examples":{"application/json":{"p":"x"}}}}}}},"definitions":{"Primer":{"type":"object","properties":{"p":{"type":"string","default":"d"}}}}}`
+
+// primed validates the primer with a new validator and returns that validator
+func primed(cont bool, reg strfmt.Registry) *validate.SpecValidator {
+	d, err := loads.Analyzed(json.RawMessage(primerDoc), "")
+	if err != nil {
+		return nil
+	}
+	sv := validate.NewSpecValidator(d.Schema(), reg)
+	sv.SetContinueOnErrors(cont)
+	_, _ = sv.Validate(d)
+	return sv
+}
+
+var usePrimed bool
 
 func runSpec(docText []byte, cont bool, in *interner, reg strfmt.Registry, reuse bool) specRun {
 	var res specRun
@@ -107,7 +127,15 @@ func runSpec(docText []byte, cont bool, in *interner, reg strfmt.Registry, reuse
 			return
 		}
 		var sv *validate.SpecValidator
-		if reuse && sharedSV[cont] != nil {
+		if usePrimed {
+			sv = primed(cont, reg)
+			phaseMu.Lock()
+			phaseLog = nil // the primer's phases are not part of this run
+			phaseMu.Unlock()
+		}
+		if sv != nil {
+			// a validator that has just validated another document
+		} else if reuse && sharedSV[cont] != nil {
 			sv = sharedSV[cont]
 		} else {
 			sv = validate.NewSpecValidator(d.Schema(), reg)
@@ -124,6 +152,11 @@ func runSpec(docText []byte, cont bool, in *interner, reg strfmt.Registry, reuse
 		res.out = "returned"
 		res.errs, res.warns, res.retwarns = in.set(errs.Errors), in.set(errs.Warnings), in.set(warns.Errors)
 		res.nerr = len(errs.Errors)
+		for _, e := range errs.Errors {
+			if strings.Contains(e.Error(), "has circular ancestry") {
+				res.circ = true
+			}
+		}
 	})
 	if st != "" {
 		res.out = st
@@ -242,7 +275,18 @@ func driveSpec(args []string) error {
 	extra := fs.String("docs", "", "file with further documents, one JSON per line (validated unedited)")
 	out := fs.String("out", "", "output directory")
 	shard := fs.String("shard", "0/1", "k/n: handle documents with index mod n = k")
+	crashed := fs.String("crashed", "", "comma separated <doc index>:<mode>:<how> of validations that killed (or hung) an earlier attempt of this run: they are reported, not run again")
 	fs.Parse(args)
+	// A validation that never returns or that ends the process with a fatal error (stack overflow) cannot be recovered from in
+	// process. Protocol: the document and mode being validated are noted in current.txt first; a hang ends the process at once
+	// (exit 5) and a fatal error ends it anyway; the caller starts the run again with that validation listed in -crashed.
+	debug.SetMaxStack(192 << 20)
+	crashedHow := map[string]string{}
+	for _, c := range strings.Split(*crashed, ",") {
+		if parts := strings.Split(c, ":"); len(parts) == 3 {
+			crashedHow[parts[0]+":"+parts[1]] = parts[2]
+		}
+	}
 	var sk, sn int
 	fmt.Sscanf(*shard, "%d/%d", &sk, &sn)
 	r := rand.New(rand.NewSource(*seed))
@@ -311,6 +355,10 @@ func driveSpec(args []string) error {
 			docs = append(docs, docv{t, bi, name})
 		}
 	}
+	// hand-written rejected documents: always part of the universe, in every tier
+	for bi, b := range gen.BadDocs {
+		docs = append(docs, docv{[]byte(b), -2 - bi, "(rejected document)"})
+	}
 	for _, l := range readLines(*extra) {
 		docs = append(docs, docv{[]byte(l), -1, "(given)"})
 	}
@@ -340,11 +388,38 @@ func driveSpec(args []string) error {
 			rawEnc = bundleCtx.Value(g)
 		}
 		for _, cont := range []bool{false, true} {
+			modeName := map[bool]string{false: "stop", true: "cont"}[cont]
+			if how, dead := crashedHow[fmt.Sprintf("%d:%s", di, modeName)]; dead {
+				runs++
+				outcomes[how]++
+				ev := enc.M{"ev": "specrun", "doc": di + 1, "mode": modeName, "rep": 0, "out": how, "errs": []interface{}{}, "warns": []interface{}{}, "retwarns": []interface{}{},
+					"phases": []interface{}{}, "accepted": false, "circ": false}
+				if *raw {
+					ev["raw"] = rawEnc
+				}
+				input := enc.M{"base": d.base, "edit": d.edit, "mode": modeName, "doc": json.RawMessage(d.text), "outcome": how,
+					"panic": "this validation ended the driver process in an earlier attempt of the run (" + how + "); it was not run again"}
+				if err := w.write(ev, input); err != nil {
+					return err
+				}
+				inChunk++
+				continue
+			}
+			_ = os.WriteFile(filepath.Join(*out, "current.txt"), []byte(fmt.Sprintf("%d:%s", di, modeName)), 0o644)
 			for rep := 0; rep < *repeat; rep++ {
 				// with repetitions, the last one goes through a validator instance reused across documents
+				// ... and the one before through a validator that has just validated an unrelated accepted document
+				usePrimed = *repeat > 2 && rep == *repeat-2
 				res := runSpec(d.text, cont, in, reg, *repeat > 1 && rep == *repeat-1)
+				usePrimed = false
 				if res.out == "loaderr" {
 					break
+				}
+				if res.out == "hang" {
+					// the abandoned goroutine is still running and may end the process at any later point: stop here
+					w.close()
+					_ = os.WriteFile(filepath.Join(*out, "current.txt"), []byte(fmt.Sprintf("%d:%s:hang", di, modeName)), 0o644)
+					os.Exit(5)
 				}
 				runs++
 				outcomes[res.out]++
@@ -353,7 +428,7 @@ func driveSpec(args []string) error {
 					mode = "cont"
 				}
 				ev := enc.M{"ev": "specrun", "doc": di + 1, "mode": mode, "rep": rep, "out": res.out, "errs": res.errs, "warns": res.warns, "retwarns": res.retwarns,
-					"phases": res.phases, "accepted": res.out == "returned" && res.nerr == 0}
+					"phases": res.phases, "accepted": res.out == "returned" && res.nerr == 0, "circ": res.circ}
 				if *raw && rep == 0 {
 					ev["raw"] = rawEnc
 				}
